@@ -18,6 +18,13 @@ RULE = ('crc16: every byte string of length 0..3 (2^24+65793 messages = every (r
         'messages (each single byte position set, lengths 4..4096). A case is non-trivial when its length >= 1; states = '
         'distinct messages fed to the real function; transitions = register transitions they exercise; '
         'traces = messages whose reference checksum was compared with the implementation')
+LEVEL_TEXT = ('Complete enumeration through the public functions: crc16 on every byte string of length 0..3 (every (register, byte) '
+              'transition of the 16-bit machine, which by induction decides all lengths for any implementation whose state is the '
+              'register); crc32c on every string of length 0..2 (0..3 thorough) in all byte-order modes plus structured long '
+              'messages. Right level: the property is a statement over all byte strings and the implementation is a finite-state '
+              'machine whose transition relation can be exhausted (CRC-16) or covered lane by lane (CRC-32C).')
+LEVEL_NOTE = 'trusted: bitwise reference CRCs in mc/ref/crc.py pinned to catalogue check values; CRC-32C states beyond 3 steps only by representatives'
+TECHNIQUE = 'bounded-exhaustive enumeration of the CRC state machine transition relation against a bitwise reference model'
 ASSUMPTIONS = ['bitwise reference CRCs (mc/ref/crc.py) pinned to the catalogue check values 0x31C3 / 0xE3069283',
                'CRC-32C beyond 3-byte messages is covered by structured representatives only (2^32-state register)']
 NOT_ASSERTED = ['the full 2^32 x 256 transition relation of CRC-32C (out of reach through the API)']
